@@ -439,4 +439,46 @@ theorem rtErr_runtime_not_signal (n : Node) :
     (rtErr "Runtime error" n).isBreak = false ∧ (rtErr "Runtime error" n).isContinue = false := by
   unfold rtErr; cases n.tok <;> simp [Sig.isBreak, Sig.isContinue, tBreak, tContinue]
 
+/-! ### `for [a, b, …] in e` -/
+
+theorem mapM_some_ok {β : Type} (g : Option Node → M β) (k : Node → β) : ∀ (l : List Node),
+    (∀ x ∈ l, g (some x) = pure (k x)) → (l.map some).mapM g = pure (l.map k)
+  | [], _ => rfl
+  | x :: xs, h => by
+    simp only [List.map_cons, List.mapM_cons, h x (by simp), pure_bind,
+      mapM_some_ok g k xs (fun y hy => h y (by simp [hy]))]
+
+/-- **eval_iterloop_is_iterLoop** (several loop variables, the `for [k, v] in map` form) -/
+theorem evalLoop_is_iterLoop_list (f sc : Nat) (n c0 iv it body : Node) (ids : List Node)
+    (hc : n.children = [some c0, some body]) (h0 : c0.name = "in") (h0c : c0.children = [some iv, some it])
+    (hiv : iv.name = "list") (hivc : iv.children = ids.map some)
+    (hids : ∀ x ∈ ids, x.name = "identifier" ∧ x.children = [] ∧ ∃ t, x.tok = some t) :
+    evalLoop (f+1) sc n = (do
+      let ls ← newChild sc (← scopeName n)
+      withFreshIs (do
+        let start ← loopStart f ls it
+        iterLoop (iterNext f ls n it) (bindLoopVars ls n (ids.map textOf)) (eval f ls body) f start)) := by
+  have hk : ∀ g : Option Node → M (List Nat), (∀ x ∈ ids, g (some x) = pure (textOf x)) →
+      iv.children.mapM g = pure (ids.map textOf) := by
+    intro g hg; rw [hivc]; exact mapM_some_ok g textOf ids hg
+  rw [evalLoop]
+  simp only [hc, child, List.getElem?_cons_zero, pure_bind, h0, beq_self_eq_true, if_true, h0c, hiv]
+  rw [hk _ (by
+    intro x hx
+    obtain ⟨h1, h2, t, h3⟩ := hids x hx
+    simp [h1, h2, tokOf, h3, textOf])]
+  simp [loopStart]
+  rfl
+
+theorem eval_iterloop_is_iterLoop_list (f sc : Nat) (n c0 iv it body : Node) (ids : List Node) (h : n.name = "loop")
+    (hc : n.children = [some c0, some body]) (h0 : c0.name = "in") (h0c : c0.children = [some iv, some it])
+    (hiv : iv.name = "list") (hivc : iv.children = ids.map some)
+    (hids : ∀ x ∈ ids, x.name = "identifier" ∧ x.children = [] ∧ ∃ t, x.tok = some t) :
+    eval (f+2) sc n = (do
+      let ls ← newChild sc (← scopeName n)
+      withFreshIs (do
+        let start ← loopStart f ls it
+        iterLoop (iterNext f ls n it) (bindLoopVars ls n (ids.map textOf)) (eval f ls body) f start)) := by
+  rw [eval_loop _ _ _ h, evalLoop_is_iterLoop_list f sc n c0 iv it body ids hc h0 h0c hiv hivc hids]
+
 end Ecal.Ev
